@@ -82,7 +82,10 @@ func (bi *BodyInspector) Inspect(ctx context.Context, r *http.Request, profile *
 
 	// Restore the body for downstream handlers by creating a new reader that combines
 	// what we've already read with any remaining unread content
-	r.Body = io.NopCloser(io.MultiReader(bytes.NewReader(buffer.Bytes()), r.Body))
+	// the buffer goes back to the pool when we return: the restored body needs its own copy of the bytes,
+	// otherwise the next request's inspection overwrites what this request forwards upstream
+	peeked := append([]byte(nil), buffer.Bytes()...)
+	r.Body = io.NopCloser(io.MultiReader(bytes.NewReader(peeked), r.Body))
 
 	modelName := bi.extractModelName(buffer.Bytes())
 	if modelName != "" {
